@@ -1416,6 +1416,7 @@ func (fx *fnExec) havoc(ms *modSet, hint string) {
 			fx.assumps = append(fx.assumps, fmt.Sprintf("(assert (forall ((r Int)) (=> (select %s r) (select %s r))))", alive.S, na.S))
 		}
 	}
+	var newCells []SV
 	for _, c := range sortedValues(ms.cells) {
 		if old, ok := fx.st.cells[c]; ok {
 			var t types.Type
@@ -1431,6 +1432,7 @@ func (fx *fnExec) havoc(ms *modSet, hint string) {
 			nv := fx.freshSV(t, hint+"_"+c.Name())
 			fx.wfValue(nv)
 			fx.st.cells[c] = nv
+			newCells = append(newCells, nv)
 		} else if _, isAlloc := c.(*ssa.Alloc); !isAlloc {
 			delete(fx.st.cells, c)
 		}
@@ -1456,6 +1458,10 @@ func (fx *fnExec) havoc(ms *modSet, hint string) {
 		}
 	}
 	fx.havocked = nil
+	// typed memory: a reference held in a variable is nil or allocated (in the allocation state after the havoc)
+	for _, nv := range newCells {
+		fx.assumeAlive(nv)
+	}
 	for _, g := range sortedKeys(ms.ghosts) {
 		if old, ok := fx.st.ghost[g]; ok {
 			fl := flatten(old)
